@@ -187,6 +187,7 @@ func stubOverlay(work, harness string, replace map[string]string) error {
 			return err
 		}
 		changed := false
+		keepImports := map[string]bool{}
 		if len(exts) > 0 {
 			alias := map[string]string{} // local name -> import path
 			for _, im := range f.Imports {
@@ -214,6 +215,7 @@ func stubOverlay(work, harness string, replace map[string]string) error {
 					if alias[id.Name] == xt.pkg && sel.Sel.Name == xt.name {
 						call.Fun = ast.NewIdent(xt.stub)
 						changed = true
+						keepImports[id.Name+"."+sel.Sel.Name] = true
 					}
 				}
 				return true
@@ -274,6 +276,13 @@ func stubOverlay(work, harness string, replace map[string]string) error {
 			f.Decls = append(f.Decls, extra...)
 			var buf bytes.Buffer
 			if err := printer.Fprint(&buf, fset, f); err != nil {
+				return err
+			}
+			for k := range keepImports {
+				// the import may have no other use left
+				fmt.Fprintf(&buf, "\nvar _ = %s\n", k)
+			}
+			if false {
 				return err
 			}
 			out := filepath.Join(work, "stubbed_"+en.Name())
